@@ -18,6 +18,7 @@ import (
 	"github.com/gofiber/fiber/v3"
 	"github.com/gofiber/fiber/v3/middleware/session"
 	"github.com/gofiber/fiber/v3/verifrt"
+	"github.com/gofiber/utils/v2"
 	"github.com/valyala/fasthttp"
 
 	"verifmc/ccpair"
@@ -43,12 +44,22 @@ func ccSessView(s *session.Session, presented string) string {
 // (the storage answers an error once) on a different path of the store / middleware — the error branches are where
 // a session object is released, and a release too many or too few only shows when two later requests overlap.
 // "" is the plain warm-up. All of them run on the injected storage with an absolute timeout configured.
+// ccJanitorWarm: the built-in storage with its janitor thread (a daemon thread of the execution). A session object
+// loaded before the idle timeout lapsed is held by the application (store.GetByID), the clock moves past the idle
+// timeout and the janitor's interval, and a request saves the held session (a fresh idle timeout) while the janitor
+// sweeps; the same handler then looks the id up again.
+const ccJanitorWarm = "held-session-saved-after-lapse"
+
+// ccT0: the coarse clock (read by the built-in storage) at the start of every scenario build
+const ccT0 = 1_900_000_000
+
 var ccWarmups = []string{"abs-getbyid-delete-fails", "getbyid-get-fails", "destroy-delete-fails", "save-set-fails",
 	"load-get-fails", "byid-delete-fails", "abs-request-delete-fails"}
 
 func ccBuildSession(api string, injected bool, warm ...string) func() fasthttp.RequestHandler {
 	return func() fasthttp.RequestHandler {
 		session.VerifResetPools()
+		utils.VerifSetTimestamp(ccT0)
 		counter := 0
 		sc := session.Config{IdleTimeout: 30 * time.Minute, KeyLookup: "cookie:" + cookieName,
 			KeyGenerator: func() string { counter++; return "s" + strconv.Itoa(counter) }}
@@ -57,7 +68,7 @@ func ccBuildSession(api string, injected bool, warm ...string) func() fasthttp.R
 			st = &ccStorage{data: map[string][]byte{}}
 			sc.Storage = st
 		}
-		if len(warm) > 0 {
+		if len(warm) > 0 && warm[0] != ccJanitorWarm {
 			// (the injected storage keeps no TTL, so only the absolute deadline ends a session here)
 			sc.IdleTimeout, sc.AbsoluteTimeout = 10*time.Second, 12*time.Second
 		}
@@ -116,6 +127,22 @@ func ccBuildSession(api string, injected bool, warm ...string) func() fasthttp.R
 			verifrt.Yield("handler.after-act")
 			return c.SendString(fmt.Sprintf("pre{%s} post{%s} err=%v", pre, ccSessView(sess, presented), err))
 		})
+		var held *session.Session
+		app.Get("/held", func(c fiber.Ctx) error {
+			if held == nil {
+				return c.SendString("no held session")
+			}
+			held.Set("k9", "H")
+			err := held.Save()
+			verifrt.Quiesce() // everything else that can run (the janitor's sweep among it) runs before the id is looked up again
+			again, gerr := store.GetByID("s1")
+			view := "gone"
+			if gerr == nil {
+				view = fmt.Sprint(again.Get("k1"), again.Get("k9"))
+				again.Release()
+			}
+			return c.SendString(fmt.Sprintf("saved err=%v; looked up again: %s", err, view))
+		})
 		h := app.Handler()
 		// warm-up: client A owns s1 {k1: A1}, client B owns s2 {k1: B1}
 		for _, w := range []string{"A1", "B1"} {
@@ -129,7 +156,11 @@ func ccBuildSession(api string, injected bool, warm ...string) func() fasthttp.R
 			fctx.Init(rq, nil, nil)
 			h(&fctx)
 		}
-		if len(warm) > 0 {
+		if len(warm) > 0 && warm[0] == ccJanitorWarm {
+			held, _ = store.GetByID("s1") // loaded while the session is alive
+			verifrt.Advance(31 * time.Minute)
+			utils.VerifSetTimestamp(ccT0 + 31*60)
+		} else if len(warm) > 0 {
 			one := func(id, act string) {
 				defer func() { _ = recover() }() // the middleware panics when the store cannot load (a server recovers)
 				var fctx fasthttp.RequestCtx
@@ -308,6 +339,27 @@ func runConcurrentSessions(r *core.Run) {
 			faulty = append(faulty, ccpair.Scenario{Name: api + "/injected+" + w, Build: ccBuildSession(api, true, w), Reqs: reqs, Observe: ccObserveSession,
 				Unordered: r.Quick(), Skip: func(a, b string) bool { return client(a) == client(b) }})
 		}
+	}
+	var janitor []ccpair.Scenario
+	for _, api := range []string{"mw", "st"} {
+		reqs := []ccpair.Req{
+			{Name: "A-save-held", Make: func() *fasthttp.Request {
+				rq := fasthttp.AcquireRequest()
+				rq.Header.SetMethod("GET")
+				rq.SetRequestURI("http://app.test/held")
+				return rq
+			}},
+			{Name: "B-get", Make: mk(api, "s2", "get", "", "")},
+		}
+		janitor = append(janitor, ccpair.Scenario{Name: api + "/memory+janitor+" + ccJanitorWarm, Build: ccBuildSession(api, false, ccJanitorWarm), Reqs: reqs, Observe: ccObserveSession,
+			Unordered: true, Skip: func(a, b string) bool { return client(a) == client(b) }})
+	}
+	// preemption bound 2 (the janitor is a third thread with a scheduling point at every mutex operation; the
+	// save-between-scan-and-delete interleaving needs two preemptions); quick: the middleware API only
+	if r.Quick() {
+		ccpair.Run(r, "concurrent", janitor[:1], 2)
+	} else {
+		ccpair.Run(r, "concurrent", janitor, 2)
 	}
 	if r.Quick() {
 		ccpair.Run(r, "concurrent", faulty, 1)
